@@ -1,5 +1,5 @@
 (* C09 — writer output does not depend on how the same document is presented.  Statements only. *)
-From Ebml Require Import Base Tools Spec Writer Reader Pure Encode Proofs.Tactics Proofs.SpecProofs Proofs.WriterProofs Proofs.RoundTrip Proofs.WriteEnc Proofs.WriteFull Proofs.WriteMixed.
+From Ebml Require Import Base Tools Spec Writer Reader Pure Encode Proofs.Tactics Proofs.SpecProofs Proofs.WriterProofs Proofs.RoundTrip Proofs.WriteEnc Proofs.WriteFull Proofs.WriteMixed Proofs.WriteScripts.
 
 (* the deprecated unknown-size call is the option-based one *)
 Theorem C09_deprecated : forall sp st t, wstep sp st (OpWriteUnknown t) = wstep sp st (OpWrite t {| o_len := None; o_unknown := true |}).
@@ -33,6 +33,38 @@ Proof.
     cbn [write_all] in H. destruct w as [n| | |c]; try (inversion H; fail).
     + destruct n; [inversion H|]. apply IH in H. rewrite H, <- app_assoc. f_equal. apply firstn_skipn.
     + apply IH in H. exact H.
+Qed.
+
+(* ... and so does every whole run: for every specification and every call sequence (rejected calls, raw writes, flush and
+   into_inner included), a destination that never fails hard (every write() accepts at least one byte or is Interrupted:
+   [benign]) sees the same result for every call, the same number of delivered bytes after every call and the same final
+   bytes as the destination that accepts everything at once (the empty script) *)
+Theorem C09_script_irrelevant : forall sp ops s, benign s -> run_writer sp ops s = run_writer sp ops [].
+Proof. exact script_irrelevant. Qed.
+
+(* hence any two such destinations agree *)
+Theorem C09_script_irrelevant2 : forall sp ops s1 s2, benign s1 -> benign s2 -> run_writer sp ops s1 = run_writer sp ops s2.
+Proof. exact script_irrelevant2. Qed.
+
+(* a run with a rejected call (16642 outside of its parent), a raw write, known- and unknown-size masters and a final
+   into_inner, against a destination that takes a few bytes at a time (the last write offers more room than
+   there are bytes left) with Interrupted errors in between *)
+Example C09_script_ex :
+  let sp := [ {| e_id := 129; e_ty := DMaster; e_path := [] |}; {| e_id := 16643; e_ty := DMaster; e_path := [PId 129] |};
+              {| e_id := 16642; e_ty := DBinary; e_path := [PId 129; PId 16643] |} ] in
+  let u := {| o_len := None; o_unknown := true |} in
+  let ops := [OpWrite (TStart 129) u; OpWrite (TElem 16642 (VB [7; 8])) o_default; OpWrite (TStart 16643) o_default;
+              OpWrite (TElem 16642 (VB [7; 8])) o_default; OpRaw 16642 [9; 10; 11]; OpFlush;
+              OpWrite (TFull 129 [TFull 16643 [TElem 16642 (VB [1; 2; 3])]]) o_default; OpIntoInner] in
+  let s := [WAcc 1; WInt; WAcc 2; WInt; WInt; WAcc 1; WAcc 1; WInt; WAcc 2; WAcc 1; WInt; WAcc 1; WAcc 2; WAcc 1; WInt;
+            WAcc 1; WAcc 1; WAcc 2; WInt; WInt; WAcc 1; WAcc 1; WAcc 2; WAcc 1; WInt; WAcc 3; WAcc 1; WAcc 1; WInt; WAcc 1;
+            WAcc 2; WInt; WAcc 1; WAcc 7] in
+  benign s /\ run_writer sp ops s = run_writer sp ops [] /\
+  map fst (fst (run_writer sp ops s)) =
+    [WOk; WErr (EUnexpectedTag 16642 [129]); WOk; WOk; WOk; WOk; WOk; WOk] /\
+  map snd (fst (run_writer sp ops s)) = [9; 9; 9; 9; 9; 23; 34; 34]%nat.
+Proof.
+  split; [repeat constructor|]. vm_compute. repeat split; reflexivity.
 Qed.
 
 Example C09_ex :
